@@ -7,6 +7,7 @@ S=/var/tmp/verif-rename.$$
 rm -rf "$S"; mkdir -p "$S/repo" "$S/verif"
 cp -a /repo/v2 "$S/repo/v2"
 cp /verif/known_findings.json "$S/verif/"
+# RENAME_EXPORTED=1 additionally renames exported-cased methods/fields of unexported types that no interface declares
 /verif/bin/midiverif renameall --repo "$S/repo" ${SUFFIX:-Zq} || { rm -rf "$S"; exit 2; }
 BO=$(cd "$S/repo/v2" && go build $(go list ./... 2>/dev/null | grep -v -e rtmididrv -e portmididrv) 2>&1 | tail -5)
 if [ -n "$BO" ]; then echo "BUILD-FAILED: $BO"; rm -rf "$S"; exit 4; fi
